@@ -68,6 +68,11 @@ def run_item(item):
         first = partnered & (df["p_id"].to_numpy() < df["p_id_einstandspartner"].to_numpy())
         df["monate_elterngeldbezug"] = np.where(first | df["alleinerz"].to_numpy(), 12, 0)
         df["bürgerg_bezug_vorj"] = np.arange(len(df)) % 2 == 0
+    if item["k"] % 2 == 0:
+        # large, sparse ids (derived ids such as hh_id * 100 then exceed 10**5); rows stay shuffled / interleaved
+        pm = popgen.random_injective(rng, df["p_id"].tolist(), 50000)
+        hm = popgen.random_injective(rng, sorted(df["hh_id"].unique().tolist()), 15000)
+        df = popgen.relabel(df, pm, {h: v + 1000 for h, v in hm.items()})
     df = df.iloc[rng.permutation(len(df))].reset_index(drop=True)
     T, nodes, roots, dag, fn = env.trace(df, params, functions, rounding=bool(item["k"] % 2))
     res = dict(date=item["date"], pop=popgen.digest(df), violations=[], suffixed_nodes=0, groups_checked=0,
